@@ -75,14 +75,22 @@ def random_annotations(ctx: Ctx, n: int, max_depth: int) -> list[str]:
     return out
 
 
+FAMILY_ANCHORS = ["object", "A", "Type[A]", "Callable[[], A]", "Callable[[A], A]", "Callable[[A, B], A]", "WithCall",
+                  "f_opt", "f_star", "f_kw", "f_kwopt", "f_star2", "f_all", FUNCTION_NAME]
+
+
 class Universe:
-    def __init__(self, ctx: Ctx, annotations: list[str] | None = None):
+    def __init__(self, ctx: Ctx, annotations: list[str] | None = None, family: list[list[str]] | None = None):
         fixed_model = fixture.ATOMS + fixture.model_depth1() + fixture.model_depth2()
         if annotations is None:
             rnd = random_annotations(ctx, ctx.pick(24, 260), ctx.pick(3, 4))
             annotations = list(dict.fromkeys(fixed_model + rnd + fixture.EXTRA))
+        if family is None:
+            family = [list(x) for x in fixture.callable_family(ctx.rng, not ctx.quick())]
         self.annotations = annotations
-        self.w = real.World(annotations, fixture.EXTRA_FUNCS)
+        self.family = family
+        fam_funcs = [src.split("(", 1)[0][4:] for _, src in family]          # "def g12(…" -> "g12"
+        self.w = real.World(annotations, fixture.EXTRA_FUNCS + fam_funcs, "".join(src for _, src in family))
         self.terms = real.Terms(self.w)
         self.names: list[str] = []
         self.types: list = []
@@ -101,7 +109,20 @@ class Universe:
             if n in must and tm is None:
                 raise ToolFailure(f"fixture type {n} did not convert to a model term")
         self.model_idx = [i for i, tm in enumerate(self.term) if tm is not None]
+        self.main_idx = list(range(len(self.types)))
+        # the callable family (law search and cache passes among themselves and a few anchors only)
+        for (name, _), fn in zip(family, fam_funcs):
+            t = self.w.types[fn]
+            if real.contains_any(t):
+                raise ToolFailure(f"family member {name} contains Any")
+            self.names.append(name)
+            self.types.append(t)
+            self.term.append(None)
         self.index = {n: i for i, n in enumerate(self.names)}
+        self.fam_idx = [self.index[a] for a in FAMILY_ANCHORS if a in self.index] + list(range(len(self.main_idx), len(self.types)))
+
+    def replay_detail(self) -> dict:
+        return {"annotations": self.annotations, "family": self.family}
 
 
 # ------------------------------------------------------------------------------------ kinds / cells
@@ -133,24 +154,36 @@ def kind(t) -> str:
     return type(t).__name__
 
 
-def callable_cell(a, b) -> str | None:
-    """Two 'similar' callables (same arity, min_args, star-ness) whose argument kinds / names differ: the cell in
-    which join/meet copy kinds and names from one operand (join.py: "TODO kinds and argument names")."""
+def callable_cell(ops, a, b, op: str) -> str | None:
+    """The known cells F-C08c/d/e, kept narrow: two 'similar' callables (same arity, min_args, star-ness) whose
+    argument kinds / names differ, the result is a callable that copies exactly the *second* operand's argument
+    kinds (and, for meet, names) — join.py: "TODO kinds and argument names" — and the law fails for the first
+    operand only.  Anything else among callables gets a generic cell (and is therefore a violation)."""
     from mypy.join import is_similar_callables
     from mypy.types import CallableType, get_proper_type
     pa, pb = get_proper_type(a), get_proper_type(b)
-    if isinstance(pa, CallableType) and isinstance(pb, CallableType) and is_similar_callables(pa, pb):
-        if pa.arg_kinds != pb.arg_kinds:
-            return "callable×callable[similar, argument kinds differ]"
-        if pa.arg_names != pb.arg_names:
-            return "callable×callable[similar, argument names differ]"
+    if not (isinstance(pa, CallableType) and isinstance(pb, CallableType) and is_similar_callables(pa, pb)):
+        return None
+    ops.reset()
+    if op == "join":
+        r = get_proper_type(ops.join_types(a, b))
+        first_ok, second_ok = ops.is_subtype(a, r), ops.is_subtype(b, r)
+    else:
+        r = get_proper_type(ops.meet_types(a, b))
+        first_ok, second_ok = ops.is_subtype(r, a), ops.is_subtype(r, b)
+    if not (isinstance(r, CallableType) and r.arg_kinds == pb.arg_kinds and second_ok and not first_ok):
+        return None
+    if pa.arg_kinds != pb.arg_kinds:
+        return "callable×callable[similar, argument kinds differ]"
+    if op == "meet" and pa.arg_names != pb.arg_names and r.arg_names == pb.arg_names:
+        return "callable×callable[similar, argument names differ]"
     return None
 
 
 FC08B_CELL = "contravariant-generic(arguments related by non-proper subtyping only)"
 
 
-def meet_cell(a, b) -> str:
+def meet_cell(ops, a, b) -> str:
     """Cell of a failing meet law instance.  F-C08b: `visit_instance` meets the arguments of two instances of the same
     class whenever `is_subtype` holds one way — also for a contravariant parameter; this is reached only when the
     proper-subtype shortcuts of `meet_types` did not fire, i.e. the arguments are related through the non-proper
@@ -164,14 +197,14 @@ def meet_cell(a, b) -> str:
         if ((is_subtype(x, y) or is_subtype(y, x)) and not is_proper_subtype(x, y, ignore_promotions=True)
                 and not is_proper_subtype(y, x, ignore_promotions=True)):
             return FC08B_CELL
-    return callable_cell(a, b) or f"{kind(a)}×{kind(b)}"
+    return callable_cell(ops, a, b, "meet") or f"{kind(a)}×{kind(b)}"
 
 
-def bound_observed(a, b, op: str) -> dict:
+def bound_observed(ops, a, b, op: str) -> dict:
     """`observed` of a failing bound law on its core instance."""
     if op == "meet":
-        return {"class": "meet-not-lower-bound", "cell": meet_cell(a, b)}
-    return {"class": "join-not-upper-bound", "cell": callable_cell(a, b) or f"{kind(a)}×{kind(b)}"}
+        return {"class": "meet-not-lower-bound", "cell": meet_cell(ops, a, b)}
+    return {"class": "join-not-upper-bound", "cell": callable_cell(ops, a, b, "join") or f"{kind(a)}×{kind(b)}"}
 
 
 def union_items(t):
@@ -277,24 +310,34 @@ def groups_of(idx: list[int], size: int) -> list[list[int]]:
     return [idx[i:i + size] for i in range(0, len(idx), size)]
 
 
-def real_passes(ctx: Ctx, u: Universe, ops: real.Ops):
-    """Returns (results of the first cold pass: dict (op,i,j) -> raw result, list of cache-dependence findings)."""
-    n = len(u.types)
+def run_block(u: Universe, ops: real.Ops, qs, cold_canon, problems: list, label: str) -> None:
+    """One reset, then the queries in the given order: every answer must equal the cold one."""
+    ops.reset()
+    for pos, (op, a, b) in enumerate(qs):
+        r = canon_result(op, ops.run(op, [u.types[a], u.types[b]]))
+        if r != cold_canon[(op, a, b)] and len(problems) < 8:
+            problems.append({"pass": label, "query": [op, u.names[a], u.names[b]], "cold": cold_canon[(op, a, b)][:300],
+                             "warm": r[:300], "warmup": [[o, u.names[x], u.names[y]] for (o, x, y) in qs[:pos]]})
+
+
+def real_passes(ctx: Ctx, u: Universe, ops: real.Ops, idx: list[int], tag: str):
+    """Cold / warm / cold-again over all ordered pairs of `idx`.
+    Returns (results of the first cold pass: dict (op,i,j) -> raw result, list of cache-dependence findings)."""
     cold: dict[tuple[str, int, int], object] = {}
     cold_canon: dict[tuple[str, int, int], str] = {}
     t0 = time.time()
-    for i in range(n):
-        for j in range(n):
+    for i in idx:
+        for j in idx:
             for op in OPS:
                 ops.reset()
                 r = ops.run(op, [u.types[i], u.types[j]])
                 cold[(op, i, j)] = r
                 cold_canon[(op, i, j)] = canon_result(op, r)
-    ctx.coverage["real_cold_pass_s"] = round(time.time() - t0, 1)
+    ctx.coverage[f"real_cold_pass_s_{tag}"] = round(time.time() - t0, 1)
     # warm pass: blocks of related queries (two groups of 8 types, all ops, both directions), shuffled, one reset
     # per block — every query is answered with the caches filled by the other queries of its block
-    problems = []
-    order = list(range(n))
+    problems: list = []
+    order = list(idx)
     ctx.rng.shuffle(order)
     gs = groups_of(order, 8)
     nblocks = 0
@@ -305,25 +348,44 @@ def real_passes(ctx: Ctx, u: Universe, ops: real.Ops):
                 pairs += [(b, a) for a in gs[gi] for b in gs[gj]]
             qs = [(op, a, b) for (a, b) in pairs for op in OPS]
             ctx.rng.shuffle(qs)
-            ops.reset()
             nblocks += 1
-            for pos, (op, a, b) in enumerate(qs):
-                r = canon_result(op, ops.run(op, [u.types[a], u.types[b]]))
-                if r != cold_canon[(op, a, b)] and len(problems) < 5:
-                    problems.append({"pass": "warm", "query": [op, u.names[a], u.names[b]], "cold": cold_canon[(op, a, b)][:300],
-                                     "warm": r[:300], "warmup": [[o, u.names[x], u.names[y]] for (o, x, y) in qs[:pos]]})
-    ctx.coverage["warm_blocks"] = nblocks
+            run_block(u, ops, qs, cold_canon, problems, "warm")
+    if tag == "main":
+        # structural block: protocols, the classes/instances that may implement them, Type[...] and callables all in
+        # one block, run in a shuffled order and in the reverse of it, so that for any two of its queries each
+        # comes before the other once (a check of a class object against a protocol before the check of the instance)
+        special = [i for i in idx if kind(u.types[i]) in ("protocol", "type[C]", "instance", "callable")][:48]
+        qs = [(op, a, b) for a in special for b in special for op in ("sub", "psub")]
+        ctx.rng.shuffle(qs)
+        run_block(u, ops, qs, cold_canon, problems, "warm (protocol block)")
+        run_block(u, ops, list(reversed(qs)), cold_canon, problems, "warm (protocol block, reversed)")
+        nblocks += 2
+    ctx.coverage[f"warm_blocks_{tag}"] = nblocks
     # cold again
-    for i in range(n):
-        for j in range(n):
+    for i in idx:
+        for j in idx:
             for op in OPS:
                 ops.reset()
                 r = canon_result(op, ops.run(op, [u.types[i], u.types[j]]))
-                if r != cold_canon[(op, i, j)] and len(problems) < 5:
+                if r != cold_canon[(op, i, j)] and len(problems) < 8:
                     problems.append({"pass": "cold-again", "query": [op, u.names[i], u.names[j]],
                                      "cold": cold_canon[(op, i, j)][:300], "again": r[:300], "warmup": []})
-    ctx.count("cache_independence_queries", 3 * n * n * len(OPS))
+    ctx.count("cache_independence_queries", 3 * len(idx) * len(idx) * len(OPS))
     return cold, problems
+
+
+def cache_cell(u: Universe, pr: dict) -> str:
+    """Cell of a cache-dependent answer.  Known: a callback protocol (only member `__call__`) on one side and an
+    instance on the other — `is_protocol_implementation(..., class_obj=True)` records its positive result under
+    (instance, protocol)."""
+    from mypy.types import Instance, get_proper_type
+    ts = [get_proper_type(u.types[u.index[n]]) for n in pr["query"][1:]]
+    cb = [t for t in ts if isinstance(t, Instance) and t.type.is_protocol and t.type.protocol_members == ["__call__"]]
+    other = [t for t in ts if isinstance(t, Instance) and not t.type.is_protocol]
+    if cb and other and pr["query"][0] in ("sub", "psub") and pr["pass"].startswith("warm") \
+            and pr["cold"] == "0" and pr.get("warm") == "1":
+        return "instance×callback-protocol[true only after a class-object check]"
+    return "×".join(kind(t) for t in ts)
 
 
 # ------------------------------------------------------------------------------------ correspondence
@@ -419,15 +481,15 @@ def correspondence(ctx: Ctx, u: Universe, ops: real.Ops, cold) -> list[dict]:
 
 
 # ------------------------------------------------------------------------------------ search: the laws on the real code
-def law_search(ctx: Ctx, u: Universe, ops: real.Ops, cold) -> int:
-    """Evaluate every law on the real functions over the whole universe; report failing instances.
+def law_search(ctx: Ctx, u: Universe, ops: real.Ops, cold, idx: list[int], tag: str, reported: set) -> int:
+    """Evaluate every law on the real functions over all ordered pairs / triples of `idx`; report failing instances.
     Returns the number of failing instances seen (known findings included)."""
-    n = len(u.types)
-    T, N = u.types, u.names
-    sub = [[bool(cold[("sub", i, j)]) for j in range(n)] for i in range(n)]
-    psub = [[bool(cold[("psub", i, j)]) for j in range(n)] for i in range(n)]
+    n = len(idx)
+    T = [u.types[i] for i in idx]
+    N = [u.names[i] for i in idx]
+    sub = [[bool(cold[("sub", i, j)]) for j in idx] for i in idx]
+    psub = [[bool(cold[("psub", i, j)]) for j in idx] for i in idx]
     failures = 0
-    reported: set[tuple] = set()
 
     def report(observed: dict, what: str, detail: dict) -> None:
         nonlocal failures
@@ -437,7 +499,7 @@ def law_search(ctx: Ctx, u: Universe, ops: real.Ops, cold) -> int:
         if key in reported:
             return            # one report per (law, cell)
         reported.add(key)
-        detail = dict(detail, annotations=u.annotations)
+        detail = dict(detail, **u.replay_detail())
         ctx.report(observed, what, detail)
 
     def S(a, b) -> bool:
@@ -454,27 +516,27 @@ def law_search(ctx: Ctx, u: Universe, ops: real.Ops, cold) -> int:
             if psub[i][j] and not sub[i][j]:
                 report({"class": "proper-not-subtype", "cell": f"{kind(a)}×{kind(b)}"},
                        f"is_proper_subtype({N[i]}, {N[j]}) but not is_subtype", {"law": "proper_imp_sub", "operands": [N[i], N[j]]})
-            J = cold[("join", i, j)]
+            J = cold[("join", idx[i], idx[j])]
             ja, jb = S(a, J), S(b, J)
             if not (ja and jb):
                 ca, cb, cop = bound_core(ops, a, b, "join")
-                report(bound_observed(ca, cb, cop),
+                report(bound_observed(ops, ca, cb, cop),
                        f"join_types({N[i]}, {N[j]}) = {J} is not a supertype of its {'first' if not ja else 'second'} operand",
                        {"law": "join_upper", "operands": [N[i], N[j]], "join": str(J), "first_ok": ja, "second_ok": jb})
-            Mt = cold[("meet", i, j)]
+            Mt = cold[("meet", idx[i], idx[j])]
             ma, mb = S(Mt, a), S(Mt, b)
             if not (ma and mb):
                 ca, cb, cop = bound_core(ops, a, b, "meet")
-                report(bound_observed(ca, cb, cop),
+                report(bound_observed(ops, ca, cb, cop),
                        f"meet_types({N[i]}, {N[j]}) = {Mt} is not a subtype of its {'first' if not ma else 'second'} operand",
                        {"law": "meet_lower", "operands": [N[i], N[j]], "meet": str(Mt), "first_ok": ma, "second_ok": mb})
-            Sm = cold[("simp", i, j)]
+            Sm = cold[("simp", idx[i], idx[j])]
             R = ops.UnionType([a, b])
             if not (S(Sm, R) and S(R, Sm)):
                 report({"class": "simplify-not-equivalent", "cell": f"{kind(a)}×{kind(b)}"},
                        f"make_simplified_union([{N[i]}, {N[j]}]) = {Sm} is not equivalent to the plain union",
                        {"law": "simplify_equiv", "operands": [N[i], N[j]], "simplified": str(Sm)})
-            S2 = cold[("simp", j, i)]
+            S2 = cold[("simp", idx[j], idx[i])]
             if i < j and not (S(Sm, S2) and S(S2, Sm)):
                 report({"class": "simplify-order-dependent", "cell": f"{kind(a)}×{kind(b)}"},
                        f"make_simplified_union of [{N[i]}, {N[j]}] in the two orders gives inequivalent {Sm} / {S2}",
@@ -503,8 +565,11 @@ def law_search(ctx: Ctx, u: Universe, ops: real.Ops, cold) -> int:
         for j in range(n):
             if psub[i][j] and (prows[j] & ~prows[i]):
                 pbad += 1
-    ctx.coverage["proper_transitivity_failing_pairs_informational"] = pbad
-    ctx.coverage["triples_checked"] = n * n * n
+    ctx.coverage[f"proper_transitivity_failing_pairs_informational_{tag}"] = pbad
+    ctx.coverage[f"triples_checked_{tag}"] = n * n * n
+    if tag != "main":
+        return failures
+    T, N = u.types, u.names
     # permutation invariance of simplification on longer lists
     for l in simp_lists(ctx, u)[:ctx.pick(60, 400)]:
         base = None
@@ -543,23 +608,33 @@ def main(ctx: Ctx) -> None:
     ctx.assume("strict optional; no plugins; declared types only (no last_known_value, no extra_attrs)")
     u = Universe(ctx)
     ops = real.Ops()
-    ctx.coverage["universe_size"] = len(u.types)
-    cold, cache_problems = real_passes(ctx, u, ops)
-    for pr in cache_problems[:2]:
-        ctx.report({"class": "cache-dependent-answer", "op": pr["query"][0]},
+    ctx.coverage["universe_size"] = len(u.main_idx)
+    ctx.coverage["callable_family_size"] = len(u.fam_idx)
+    cold, cache_problems = real_passes(ctx, u, ops, u.main_idx, "main")
+    cold_f, cache_problems_f = real_passes(ctx, u, ops, u.fam_idx, "family")
+    seen_cells: set[str] = set()
+    for pr in cache_problems + cache_problems_f:
+        cell = cache_cell(u, pr)
+        if cell in seen_cells:
+            continue
+        seen_cells.add(cell)
+        ctx.report({"class": "cache-dependent-answer", "cell": cell},
                    f"{pr['query'][0]}({pr['query'][1]}, {pr['query'][2]}) answers differently depending on the subtype caches "
-                   f"({pr['pass']} pass)", dict(pr, annotations=u.annotations))
+                   f"({pr['pass']} pass)", dict(pr, **u.replay_detail()))
+    nviol_cache = len(ctx.violations)
     diffs = correspondence(ctx, u, ops, cold)
     ctx.coverage["correspondence_differences"] = len(diffs)
     ctx.count("disagreements_checked", len(diffs))
     nviol_before = len(ctx.violations)
-    law_search(ctx, u, ops, cold)
-    if diffs and len(ctx.violations) == nviol_before and not cache_problems:
+    reported: set = set()
+    law_search(ctx, u, ops, cold, u.main_idx, "main", reported)
+    law_search(ctx, u, ops, cold_f, u.fam_idx, "family", reported)
+    if diffs and len(ctx.violations) == nviol_before and nviol_cache == 0:
         d = diffs[0]
         ctx.violation(f"correspondence broken: model ≠ code on {len(diffs)} case(s), first: {json.dumps(d)[:400]}; "
                       "no law instance was seen to fail on the real functions",
                       {"broken": "correspondence Driver/C08 vs mypy.subtypes/join/meet/typeops", "differences": diffs[:20],
-                       "annotations": u.annotations}, found_input=False)
+                       **u.replay_detail()}, found_input=False)
     if not proved and not ctx.violations:
         ctx.violation("Lean development for C08 no longer builds", {"broken": ctx.broken_ties}, found_input=False)
 
@@ -569,8 +644,8 @@ def replay(ctx: Ctx, path: str) -> int:
     body = json.load(open(path))
     rep = body["replay"]
     det = rep.get("detail", rep)
-    anns = det.get("annotations")
-    u = Universe(ctx, annotations=anns)
+    anns = det.get("annotations") or rep.get("annotations")
+    u = Universe(ctx, annotations=anns, family=det.get("family") or rep.get("family"))
     ops = real.Ops()
 
     def ty(name: str):
